@@ -84,6 +84,38 @@ type fnTrans struct {
 	candCache   map[string][]varCand
 	curIdx      int
 	iterCovered map[string]int
+	deferGuard  map[*ssa.Defer]string
+}
+
+// homeOf returns the package that declares the contract text located at where ("file:line"), or nil
+// for spec-library files.
+func (e *Engine) homeOf(where string) *types.Package {
+	file := where
+	if i := strings.LastIndex(where, ":"); i > 0 {
+		file = where[:i]
+	}
+	if e.fileHome == nil {
+		e.fileHome = map[string]*types.Package{}
+		for _, p := range e.ModPkgs {
+			for _, f := range p.GoFiles {
+				e.fileHome[f] = p.Types
+			}
+		}
+	}
+	return e.fileHome[file]
+}
+
+// inHome runs f with the contract-language home package set to the one declaring `where`.
+func (tr *fnTrans) inHome(where string, f func()) {
+	h := tr.eng.homeOf(where)
+	if h == nil || h == tr.c.home {
+		f()
+		return
+	}
+	saved := tr.c.home
+	tr.c.home = h
+	defer func() { tr.c.home = saved }()
+	f()
 }
 
 func (tr *fnTrans) note(f string, a ...interface{}) {
